@@ -41,8 +41,8 @@ def run(ctx):
     ctx.cov["trusted_base"] += ["extract/thresholds (go/parser based translator)", "harness hlc families ontmsg/neomsg/neo3msg/neo3lmsg + drv_lc "
                                 "(correspondence check)", "Lean compiler for the driver"]
     ctx.cov["not_covered"] = [
-        "cross_chain_manager neo3/neo3legacy MakeDepositProposal wrappers (they forward to VerifyCrossChainMsgSig, which is driven directly; "
-        "the proof stage behind it is C23-style and hangs on malformed proofs in the library)",
+        "the proof stage behind the message check in the deposit handlers (C23-style; driven only with a well-formed proof for another contract, "
+        "because the NEO libraries' proof readers do not terminate on truncated input)",
         "byte-level parsing of NEO verification scripts inside VerifyMultiSignatureWitness (only well-formed m-of-n scripts are generated)",
     ]
     if ctx.run_extract("thresholds", ["lean"], out_lean="Thresholds.lean") is None:
